@@ -261,9 +261,13 @@ def check_close(ctx, model):
         uses_hist = any("asset_history" in o.proj for o in amt) or any(
             o.kind == "call" and re.search(r"get_flow_asset_amount_at_epoch$", o.a) for o in amt)
         uses_claimed = any("claimed_amount" in o.proj for o in amt)
-        ctx.ob("C12-L3", "%s|refund-amount|%s" % (CLOSE, rv["variant"]), uses_hist and uses_claimed,
-               "refund amount depends on asset_history (funded amount incl. expansions): %s; on claimed_amount: %s"
-               % (uses_hist, uses_claimed), v.where(b))
+        # ... and through an accessor of the LATEST entry (expansions are cumulative totals keyed by epoch)
+        latest = any(o.kind == "call" and re.search(r"BTreeMap::last_key_value$|BTreeMap::last_entry$|as std::iter::DoubleEndedIterator>::next_back$|"
+                                                    r"as std::iter::Iterator>::last$|get_flow_asset_amount_at_epoch$", o.a) for o in amt)
+        earliest = any(o.kind == "call" and re.search(r"BTreeMap::first_key_value$|BTreeMap::first_entry$|BTreeMap::pop_first$", o.a) for o in amt)
+        ctx.ob("C12-L3", "%s|refund-amount|%s" % (CLOSE, rv["variant"]), uses_hist and uses_claimed and latest and not earliest,
+               "refund amount depends on asset_history (funded amount incl. expansions): %s, through a latest-entry accessor: %s (earliest-entry accessor: %s); on claimed_amount: %s"
+               % (uses_hist, latest, earliest, uses_claimed), v.where(b))
     ctx.floor("C12-L4", "refund message variants in close_flow", n, 2)
 
 
